@@ -130,14 +130,22 @@ def run_case(case):
         b = a * r.choice([1.5, 3.0, 10.0, 100.0, r.uniform(1.5, 100)])
         g = LogspaceGrid(start=a, stop=b, n_points=n)
         tol = 1e-9
-        vals = sorted({Fr(r.uniform(a, b)) for _ in range(6)})
+        if r.random() < 0.4:
+            n = r.choice([25, 60, 150, 400])       # many nodes: absolute coordinate errors scale with the index
+            g = LogspaceGrid(start=a, stop=b, n_points=n)
+        vals = {Fr(r.uniform(a, b)) for _ in range(6)}
+        nodes_ = np.asarray(g.to_jax())
+        for _ in range(4):   # values very close to (but not on) a grid point, preferably one with a large index
+            i_ = r.randint(max(1, n // 2), n - 1)
+            vals.add(Fr(float(nodes_[i_]) * (1 + r.choice([-1, 1]) * r.choice([3e-7, 2e-6, 8e-6]))))
+        vals = sorted(v for v in vals if float(a) <= float(v) <= float(b))
         out["sig"] = f"log n={n}"
         got = [float(g.get_coordinate(float(v))) for v in vals]
         res = driver().call({"op": "log_grid", "kind": "log", "a": bits(a), "b": bits(b), "n": n, "values": [bits(float(v)) for v in vals]})
         ans = [fr(unbits(x)) for x in res["coords"]]
         nodes = np.asarray(g.to_jax())
     out["hist"][f"n={min(n, 6)}{'+' if n > 6 else ''}"] = 1
-    atol = 1e-7
+    atol = 1e-8
     for v, c, m in zip(vals, got, ans):
         out["evals"] += 1
         if not same_number(c, m, tol) and abs(c - float(Fr(m))) > atol:
